@@ -6,6 +6,7 @@ CONSTANTS MaxConn = 2
           HdrWords = {0, 2}
           WithReject = FALSE
           MinOps = 0
+          Tmos = {0}
           Fails = {0}
 INVARIANTS Integrity NoOrphan
 ACTION_CONSTRAINT ExportEdge
